@@ -91,7 +91,8 @@ type c20HistIn struct {
 	CAs    []int       `json:"cas"` // CA index of every thread (kphist: 1 = the issuer has an e-mail, 0 = none)
 	Script []c20Action `json:"script"`
 	KP     *c20KPIn    `json:"kp,omitempty"`
-	EAB    bool        `json:"eab,omitempty"` // the issuers are configured with an external account (for the production CA)
+	Spell  bool        `json:"spell,omitempty"` // every second instance spells its CA settings differently (same directories)
+	EAB    bool        `json:"eab,omitempty"`   // the issuers are configured with an external account (for the production CA)
 }
 
 // c20KPIn: initial condition of a history in configured-account-key mode. File contents: 0 absent,
@@ -182,6 +183,7 @@ type c20Reply struct {
 type c20Env struct {
 	cas    []*mockca.CA
 	csr    *x509.CertificateRequest
+	spell  bool   // the next history: every second instance spells its CA settings differently (same directories)
 	eab    bool   // the next history configures its issuers with the external account below
 	eabKey []byte // MAC key of external account c20EABKid, known to both mock CAs (so that both can verify)
 }
@@ -585,7 +587,18 @@ func (r *c20Run) startThread(t int) {
 		}()
 		return
 	}
-	iss := certmagic.NewACMEIssuer(cfg, certmagic.ACMEIssuer{CA: r.env.cas[0].URL, TestCA: r.env.cas[1].URL, Agreed: true,
+	// the same two directories, spelled differently by every second instance: the production CA
+	// without its scheme (HTTPS is assumed), or the other instances' test CA configured as this
+	// instance's primary CA. Same directory => same account files => it must be the same account.
+	caStr, testStr, viaPrimary := r.env.cas[0].URL, r.env.cas[1].URL, false
+	if r.env.spell && t%2 == 1 {
+		if th.c == 0 {
+			caStr = strings.TrimPrefix(caStr, "https://")
+		} else {
+			caStr, testStr, viaPrimary = r.env.cas[1].URL, "", true
+		}
+	}
+	iss := certmagic.NewACMEIssuer(cfg, certmagic.ACMEIssuer{CA: caStr, TestCA: testStr, Agreed: true,
 		TrustedRoots: r.env.cas[0].Roots(), Logger: zap.NewNop(), HTTPProxy: func(*http.Request) (*url.URL, error) { return nil, nil }})
 	cfg.Issuers = []certmagic.Issuer{iss}
 	certmagic.VerifAccountSetEmail(iss, r.email)
@@ -593,7 +606,7 @@ func (r *c20Run) startThread(t int) {
 		iss.ExternalAccount = &acme.EAB{KeyID: c20EABKid, MACKey: base64.RawURLEncoding.EncodeToString(r.env.eabKey)}
 	}
 	attempts := 0
-	if th.c == 1 {
+	if th.c == 1 && !viaPrimary {
 		attempts = 1 // doIssue(useTestCA)
 	}
 	go func() {
@@ -1403,6 +1416,12 @@ func runC20(tier string, seed int64, outdir string, replay string) error {
 		if v, ok := feats["eab"].(bool); ok {
 			env.eab = v
 		}
+		env.spell = histNo%2 == 0
+		if v, ok := feats["spell"].(bool); ok {
+			env.spell = v
+		}
+		spellOn := env.spell
+		defer func() { env.spell = false }()
 		r, fin, err := c20RunHist(env, email, cas, choose, 600, nil)
 		recs := env.eabRecords()
 		eabOn := env.eab
@@ -1454,6 +1473,10 @@ func runC20(tier string, seed int64, outdir string, replay string) error {
 		}
 		nontrivial := nreg > 0 && (len(nlock) >= 2 || nf+nc+nr+nlost > 0)
 		desc["eab"] = eabOn
+		desc["ca_spelled_differently"] = spellOn
+		if spellOn {
+			w.Hist("hist_ca_spelling=mixed")
+		}
 		toTest := 0
 		for _, x := range recs {
 			if x.Has && x.CA == 1 {
@@ -1464,7 +1487,7 @@ func runC20(tier string, seed int64, outdir string, replay string) error {
 			w.Hist("hist_eab=configured")
 			w.Hist(fmt.Sprintf("hist_eab_sent_to_test_ca=%v", toTest > 0))
 		}
-		w.Add(emit.Case{Desc: desc, In: c20HistIn{Kind: "hist", Email: email, CAs: cas, Script: r.script, EAB: eabOn},
+		w.Add(emit.Case{Desc: desc, In: c20HistIn{Kind: "hist", Email: email, CAs: cas, Script: r.script, EAB: eabOn, Spell: spellOn},
 			Obs: map[string]any{"events": evs, "final": fin, "eab": recs}, Wire: c20HistWire(r.events, fin, eabOn, recs), Nontrivial: nontrivial})
 		w.Hist("kind=hist")
 		w.Hist("class=" + class)
@@ -1799,7 +1822,7 @@ func runC20(tier string, seed int64, outdir string, replay string) error {
 				return err
 			}
 			cls, _ := rc.Desc["class"].(string)
-			return addHist(cls, in.Email, in.CAs, c20Scripted(in.Script), map[string]any{"replayed": true, "eab": in.EAB})
+			return addHist(cls, in.Email, in.CAs, c20Scripted(in.Script), map[string]any{"replayed": true, "eab": in.EAB, "spell": in.Spell})
 		case "kphist":
 			var in c20HistIn
 			if err := json.Unmarshal(rc.In, &in); err != nil || in.KP == nil {
